@@ -532,6 +532,13 @@ def cases_sweep(tier):
             for na in ((1,) if tier == 'quick' else (1, 2)):
                 out.append({'part': 'sweep', 'shape': 'top', 'structure': 'thin', 'ducts': nd, 'model': mdl,
                             'n_asm': na, 'rings': 2, 'gap': 'none' if na == 1 else 'flow'})
+    # the csv dump of the pin temperatures switched on (reporting only: the peaks and the pin they belong to stay)
+    for nd in (1, 2):
+        for mdl in ('fuel', 'pin'):
+            for sh in (('top', 'middle') if tier == 'quick' else SHAPES):
+                for na in ((1,) if tier == 'quick' else (1, 2)):
+                    out.append({'part': 'sweep', 'shape': sh, 'structure': 'bundle', 'ducts': nd, 'model': mdl,
+                                'n_asm': na, 'rings': 2, 'gap': 'none' if na == 1 else 'flow', 'dump': True})
     out += cases_units(tier)
     return out
 
@@ -602,6 +609,8 @@ def sweep_scenario(c):
         scn['core']['bypass_fraction'] = 0.01
     if c['model'] == 'pin':
         scn['materials'] = PINMATS
+    if c.get('dump'):
+        scn['setup']['Dump'] = {'pins': True, 'coolant': True}
     return scn
 
 
@@ -626,6 +635,7 @@ def attach_recorder(reactor):
             if hasattr(reg2, 'pin_model'):
                 p = np.array(reg2.pin_temps, dtype=float, copy=True)
                 p[:, 1] = pl['z']        # the height column is only filled in on access in dassh
+                p[:, 2] = np.arange(p.shape[0])     # the pin of a row is its row (documented layout), own numbering
                 pl['pins'] = p
             _r['planes'].append(pl)
             return out
